@@ -20,7 +20,8 @@ CONSTANTS Cap,          \* Builder::tcp_capacity
                         \*        receiver is answered with RST (a FIN carries no data: nothing is lost)
           Pre,          \* TRUE: connection 1 is already established in the initial state
           Alpha,        \* alphabet of this configuration (set of action names)
-          DestKinds,    \* subset of {"srv", "none"}: connect to the server / to an address nobody owns
+          DestKinds,    \* subset of {"srv", "none", "unspec"}: connect to the server / to an address nobody
+                        \* owns / to the unspecified address 0.0.0.0 or :: (nobody's address either)
           BindKinds,    \* subset of {"any", "lo"}
           WriteLens, ReadSizes, PeekSizes,
           NPorts,       \* size of the ephemeral port range of every host (0 = never wraps: every
@@ -163,12 +164,12 @@ Connect(c, h, p, dk, lo) ==
     /\ Alloc(h, c).port # 0
     /\ cport' = [cport EXCEPT ![c] = Alloc(h, c).port]
     /\ ecur' = [ecur EXCEPT ![h] = Alloc(h, c).cur]
-    /\ IF dk = "none" \/ Blocked(h, 2)
+    /\ IF dk \in {"none", "unspec"} \/ Blocked(h, 2)
        THEN \* nothing is sent (Topology::enqueue_message fails) or the SYN is dropped at once:
             \* the future resolves to ConnectionRefused in this very poll
             /\ fut' = [fut EXCEPT ![c] = "refused"]
             /\ osh' = [osh EXCEPT ![c] = "dead"]
-            /\ P_Connect(c, h, IF dk = "none" THEN 0 ELSE SH, p, lo, "refused")
+            /\ P_Connect(c, h, IF dk \in {"none", "unspec"} THEN 0 ELSE SH, p, lo, "refused")
             /\ Act([a |-> "connect", c |-> c, h |-> h, p |-> p, dk |-> dk, res |-> "refused"])
             /\ UNCHANGED <<side, cred, wire>>
        ELSE /\ side' = [side EXCEPT ![<<c, 1>>] = NewSide]
@@ -476,6 +477,8 @@ Next ==
     \/ \E p \in PortIds, kind \in BindKinds : Bind(p, kind)
     \/ \E p \in PortIds : DropListener(p)
     \/ \E c \in Conns, h \in Hosts \ {SH}, p \in PortIds, dk \in DestKinds : Connect(c, h, p, dk, FALSE)
+    \* nobody's address is nobody's address on the listener's own host too
+    \/ \E c \in Conns, p \in PortIds, dk \in DestKinds \cap {"none", "unspec"} : Connect(c, SH, p, dk, FALSE)
     \/ \E i \in 1..(3 * MaxConn + 8) : DeliverSyn(i)
     \/ \E p \in PortIds : Accept(p)
     \/ \E c \in Conns : Poll(c)
